@@ -1118,8 +1118,12 @@ def _check_epw(inp):
         from ladybug.datacollection import HourlyContinuousCollection
         e = EPW(path)
         h1, h2 = _headers(AnalysisPeriod(is_leap_year=leap))
-        dn = HourlyContinuousCollection(h1, [r[3] for r in rows]).interpolate_to_timestep(ts)
-        dh = HourlyContinuousCollection(h2, [r[4] for r in rows]).interpolate_to_timestep(ts)
+        # typed cells (integer fields are rounded on import: C01), checked against the raw rows
+        c1, c2 = list(e.direct_normal_radiation.values), list(e.diffuse_horizontal_radiation.values)
+        if any(abs(c1[k] - rows[k][3]) > 0.5 or abs(c2[k] - rows[k][4]) > 0.5 for k in range(n)):
+            return {'required': 'EPW cells of the same row', 'observed': 'differ', 'sig': dict(sig, what='cell')}
+        dn = HourlyContinuousCollection(h1, c1).interpolate_to_timestep(ts)
+        dh = HourlyContinuousCollection(h2, c2).interpolate_to_timestep(ts)
         sp = Sunpath.from_location(e.location)
         for i in inp['idx']:
             if i >= n * ts:
@@ -1319,7 +1323,7 @@ def _rand_filter(rng, ts, leap, moys_src, whole_year_only=True):
 
 def _oracle_cases(ctx):
     rng = ctx.rng
-    big = ctx.searching or not ctx.quick
+    big = not ctx.quick
     for c in FIXED_CORPUS:
         yield c
     # time axis
@@ -1435,15 +1439,19 @@ def oracle(ctx):
     run_oracle_cases(ctx, _oracle_cases(ctx), check_case)
 
 
-LEVEL_TEXT = ('Machine-checked Lean 4 theorems over an executable model of wea.py (on top of the C08/C04 models): '
-              'step i of every annual Wea is minute 60*i/ts (+30 when hourly and not on-hour) for all 12 timesteps, '
-              'normal and leap, and equals the instant the clear-sky constructors evaluate; the (hour, minute) of every '
-              'written line reads back exactly for all 1440 minutes of the day (with the rounding repair; the pinned '
-              'truncation is characterised exactly and refuted), hourly lines read back to the hour of their collection '
-              'step; header sign conventions invert (latitude/longitude to two decimals, time zone iff it is a whole '
-              'number of degrees; counterexample 5.5 h); written values are the truncation toward zero and read back '
-              'unchanged; whole-file read-back of annual and whole-day partial data (non-wrapping and wrapping); '
-              'dictionary round trip; both collections stay aligned under any common index selection.')
+LEVEL_TEXT = ('Machine-checked Lean 4 theorems (17) over an executable model of wea.py (on top of the C08/C04 models): '
+              'entry i of _get_datetimes and step i of every annual Wea are minute 60*i/ts (+30 when hourly and not '
+              'on-hour) for all 12 timesteps, normal and leap, and coincide; whole-day partial data (non-wrapping and '
+              'wrapping) sits on the closed-form grid from its first hour; the (hour, minute) of every written line '
+              'reads back exactly for all 1440 minutes of the day (with the rounding repair, robust to 0.47 min of '
+              'float error; the pinned truncation is characterised exactly - right iff minute % 3 != 2, i.e. only for '
+              'steps that are multiples of 3 minutes - and refuted at 08:20), hourly lines read back to the hour of '
+              'their collection step; header sign conventions invert (latitude/longitude within the %.2f format, time '
+              'zone iff it is a whole number of degrees; counterexample UTC+5:30); written values are the truncation '
+              'toward zero and read back unchanged; a file with the first/last line of a whole-day period and one line '
+              'per step is read as continuous data over exactly that period, by position, and the first/last written '
+              'lines have that shape; dictionary round trip of annual data; both collections stay aligned, pairwise and '
+              'at their own time step, under any common value-independent index selection.')
 LEVEL_NOTE = ('Trusted: Lean kernel; axioms propext/Classical.choice/Quot.sound only; the correspondence run (agreement '
               'on generated inputs only); CPython string formatting/float parsing modelled at token level (the IEEE '
               'product of the sparse path is checked for all 1440 minutes on every run); collection filters (C02), '
